@@ -8,6 +8,9 @@ P = {
  "C06": ("exploration", "exhaustive enumeration of operator pairs and triples in every tree shape + rapid PBT; metamorphic (minimal vs full vs redundant parentheses) and differential against the reference evaluation of the intended tree",
    "All 15^2 pairs and 15^3 triples of binary operators over two operand sets in every tree shape, every prefix operator against every binary operator and postfix form, is, assignment chains, then 10k (quick) / 150k (thorough) random trees to depth 6/8. Each intended tree is rendered three ways; the renderings must agree with each other and with refjq. Exploration, exhaustive over operator pairs and triples.",
    "Trusted: the harness renderer inserts exactly the parentheses table 3.9 requires (its output for the intended tree is the statement of what the text means); refjq for values. ++/-- only inside parentheses, as the property states.", "5/C06, 3.9"),
+ "C02": ("exploration", "rapid PBT + exhaustive small-scope enumeration of rule mixes; differential against a reference model of the awk-style rule schedule",
+   "Tracing programs (every rule prints its id, $file, $, $index) over generated configurations of files x values x selectors x root shapes are compared line by line with the schedule of DESIGN.md 4.1; plus every ordered choice of <= 3 rules x {exit|next|none in rule j} x 3 fixed configurations, completely. Exploration (model-based differential).",
+   "Trusted: refjq's driver as the documented schedule. Not asserted (discarded, counted): $index outside array roots, $file outside file processing, `next` outside pattern rules, $ in ENDFILE after the root was replaced.", "5/C02, 4.1"),
  "C05": ("exploration", "exhaustive small-scope enumeration + rapid PBT, differential against a reference model of the section-3 operator tables",
    "Every operator x every ordered pair of 40 representative operands x 3-4 supply modes is enumerated completely (about 66k programs), then 20k (quick) / 150k (thorough) random operand pairs; each result is compared in kind, value and error class with the section-3 tables. Exploration, exhaustive over the stated representative grid: it decides the table on the grid, not on every double.",
    "Trusted: refjq's transcription of DESIGN.md section 3; Go's regexp for RE2; exotic numeric strings, non-finite results and |x| >= 2^53 for % are unspecified and discarded (counted).", "5/C05, 3"),
